@@ -150,7 +150,11 @@ def run(ctx):
         sigma = sorted(ddef["input_symbols"])
         words = [""] + [gen.rand_word(rng, sigma, 8, p_foreign=0.08 if j % 3 == 0 else 0.0) for j in range(9)]
         check_dfa(ctx, ddef, words, "random")
-        ndef = gen.rand_nfa_def(rng)
+        if i % 4 == 0:
+            # long empty-string chains / rings through up to 9 states
+            ndef = gen.rand_nfa_eps_rich(rng, nmax=9, long=(i % 8 == 0))
+        else:
+            ndef = gen.rand_nfa_def(rng)
         sigma = sorted(ndef["input_symbols"])
         words = [""] + [gen.rand_word(rng, sigma, 7, p_foreign=0.08 if j % 3 == 0 else 0.0) for j in range(9)]
         check_nfa(ctx, ndef, words, "random")
